@@ -33,6 +33,30 @@ CHECKS = {
     "C06": _vt("47 aggregate operator variants x generated timelines/parameters (seeds, defaults incl. None, comparers, predicates) run in virtual time; value, termination kind and emission time compared with functools/itertools reference computations; sequence_equal against a two-source event model fed with the observed emission order. Exploration: held on the cases observed."),
     "C07": _vt("Exhaustive enumeration of n x start x stop x step x call form (source[a:b:c], ops.slice, .slice, source[i]) inside the stated bounds, each against list(range(n))[a:b:c], on completing and error-terminated sources (thorough: cold/hot/sync).",
                technique="virtual-time runtime monitoring: exhaustive enumeration of slice parameters, outputs compared with Python list slicing"),
+    "C10": _vt("Sequential composition operators (concat, concat_with_iterable, for_in, start_with, repeat, retry, catch, on_error_resume_next, while_do, do_while) over generated lists of cold probe sources with arbitrary terminal kinds: trace predicates on the recorded sub/unsub/emit log (no overlap, next source only after the previous terminated in the continuing way, subscription counts) and exact output comparison with the concatenation model."),
+    "C11": _vt("merge / merge_all / flat_map / flat_map_indexed / concat_map / max_concurrent=n over generated outer timelines of cold/hot/sync inners: per-inner order and timing, nothing foreign, completion at the event closing the last party, first error wins, <= n open inner subscriptions at every point, queued inners in arrival order; the model consumes the observed emission order."),
+    "C12": _vt("switch_latest / switch_map / switch_map_indexed / flat_map_latest over overlapping inner lifetimes (one inner in five keeps emitting after unsubscription): an inner element is forwarded iff no later outer element had arrived at its sequence point, previous inner unsubscribed within the arrival's scheduler action, completion/error rules."),
+    "C13": _vt("zip / combine_latest / with_latest_from / fork_join / amb (factory and operator forms) over 1-4 interleaved/simultaneous/empty/erroring sources: event models fed with the observed emission order; exact comparison (values, tuple order, virtual time); amb losers unsubscribed within the winner's first action."),
+    "C20": _vt("Generated call histories (subscribe, unsubscribe incl. from inside callbacks, on_next, on_error, on_completed, dispose; unique values incl. falsy ones) on Subject compared per observer with a sequential reference model; DisposedException rules after dispose().",
+               technique="runtime monitoring of call histories: per-observer received sequences compared with a sequential reference model"),
+    "C21": _vt("As C20 for BehaviorSubject with a 'current value' cell (initial values incl. None/falsy): every new subscriber receives the current value first, also when subscribing from inside a callback.",
+               technique="runtime monitoring of call histories: per-observer received sequences compared with a sequential reference model"),
+    "C22": _vt("ReplaySubject on a TestScheduler with calls placed at generated virtual times: retained list at subscription = last buffer_size values with age <= window (buffer_size None/0/1..4, windows shorter/equal/longer than the gaps), then terminal, then later notifications, each exactly once, compared per observer.",
+               technique="virtual-time runtime monitoring of call histories against a retention model"),
+    "C23": _vt("As C20 for AsyncSubject: nothing before termination, last value (falsy values count) + completion on completion for current and later subscribers, only the error on error.",
+               technique="runtime monitoring of call histories: per-observer received sequences compared with a sequential reference model"),
+    "C24": _vt("Histories of subscribe/unsubscribe/connect/disconnect at generated virtual times over cold and hot probe sources for publish, share, replay, publish_value, multicast(subject / factory+mapper), publish(mapper), ref_count, auto_connect(0..3): connection state machine checked on the source sub/unsub log, subscriber traces compared with the subject model applied to what the source delivered while connected."),
+    "C28": _vt("Generated programs (trees of actions that log (id, clock), schedule absolute/relative/immediate actions in the past/present/future, cancel, stop) driven by advance_to/advance_by/sleep/start/stop on VirtualTimeScheduler, TestScheduler and HistoricalScheduler, compared step by step with an independent stable-sorted-queue model: due order, FIFO ties, monotone clock, cancelled never run, advance semantics.",
+               note="Trusted: the independent queue model. Open case accepted and counted: advance_to/advance_by with target == clock while due actions are pending runs nothing (pinned by the repository's own tests).",
+               technique="runtime monitoring against an independent executable model of the virtual-time queue"),
+    "C31": _ds("EventLoopScheduler under the deterministic thread scheduler with a virtual clock: programs of schedule/schedule_relative/schedule_absolute/cancel/sleep/dispose from 1-2 threads plus nested scheduling; bounded-preemption enumeration for hand-written programs, random/PCT for generated ones; history oracle: one non-caller thread, no overlap, FIFO by happens-before, no early start, due order, cancelled-before-commit never starts, DisposedException after dispose, nothing runnable left at quiescence, exit_if_empty exit/restart.",
+               note=_DS_NOTE + " Cancellation is asserted at its sound strength (DESIGN §4 rule 4). The abstract run-loop model over all interleavings is not claimed."),
+    "C36": _vt("Generated floats, timedeltas and aware datetimes (aligned and unaligned to microseconds, |t| <= 2^31 s, several time zones) through to_seconds/to_datetime/to_timedelta compared with exact Fraction/integer-microsecond arithmetic: round trips exact on aligned values, monotone on all, results aware UTC; now of every constructible scheduler class is aware UTC (child process runs with a non-UTC TZ).",
+               note="Trusted: fractions.Fraction arithmetic and the datetime module.",
+               technique="runtime monitoring: conversions compared with exact rational arithmetic"),
+    "C37": _vt("Source factories (range, of, from_iterable, return_value, empty, never, throw, generate, generate_with_relative_time incl. zero and timedelta delays, timer, repeat_value) on a TestScheduler with the scheduler passed to the factory and to subscribe: recorded (time, notification) list compared with the Python reference (list(range()), while-loop, cumulative delays); escaped exceptions are violations."),
+    "C38": _vt("Generated well-formed marble strings over the documented alphabet parsed by an independent character scanner (timespans as float and timedelta, shifts, lookup tables, raise_stopped) and compared with parse(); from_marbles/cold/hot on a TestScheduler must deliver exactly the parsed notifications at the parsed times, with one and several subscribers and with subscribers that unsubscribe inside a callback.",
+               technique="runtime monitoring against an independent scanner of the documented marble syntax"),
     "C25": _ds("Disposable / BooleanDisposable / ScheduledDisposable hammered by 2-3 threads calling dispose() under a deterministic scheduler: every schedule with <= 2 (thorough 3) preemptions for the small scenarios, random + PCT schedules for the larger ones, plus single-thread call histories; monitor: action-run count, is_disposed after return, inner dispose on the scheduler thread."),
     "C26": _ds("Composite/Serial/SingleAssignment/MultipleAssignment disposables: single-thread random call histories compared call-by-call with a sequential model (items include falsy empty CompositeDisposables), and 2-3 thread programs under the deterministic scheduler (bounded-preemption enumeration of hand-written programs, random/PCT for generated ones) with exactly-once accounting and a 'disposed while held' hook inside each item's dispose()."),
     "C27": _ds("RefCountDisposable: single-thread random histories of get-dependent / dispose-dependent / dispose-primary compared call-by-call with a sequential model, and 2-3 thread programs under the deterministic scheduler (bounded-preemption enumeration for hand-written programs, random/PCT for generated ones); monitors: underlying dispose count <= 1 always and == 1 at quiescence, release hook checks primary and all live dependents were disposed, count >= 0. Only bounded histories are claimed.",
